@@ -148,6 +148,17 @@ CHECKS = {
         "note": "1 bp of the gross amount + rounding quanta on v1 amounts; float bounds on v2; within 2 wei of a fee-rule jump either side is "
         "accepted; v2 deposits the contract would revert are not issued. One protocol-faithful known finding (GM positive price impact > fees).",
     },
+    "C11": {
+        "technique": "reference-model monitor with a three-valued accept/reject frontier: exact Aave v3 risk definitions (Fraction) decide must-accept / must-reject / either for every request, and every reported figure is compared with its definition",
+        "text": "Generated portfolios (1-5 collateral / non-collateral supplies, 0-4 debts over generated risk rows and price vectors) on the real "
+        "AaveV3Market; borrow / withdraw / change_collateral requests at 0.5x, 0.99x, (1 +- 1e-6)x, 1.01x, 2x each true limit, the get_max_* "
+        "helper amounts fed back (and measured against the true limit and the supplied amount), borrow(None) / withdraw(None): accepted only "
+        "within the limit, requests with margin (and the token's flags) accepted, HF >= 1 with debt after every accepted operation, reported "
+        "health factor / weighted max-LTV / liquidation threshold equal to the definitions.",
+        "note": "Band 1e-9 relative around each limit (rounding of the two sides is unspecified) plus 1e-33 absolute slack for dust debts; a "
+        "scaled residue below 1e-18 dropped by a partial withdrawal is tolerated in the post-operation HF. Frozen bar only; liquidation is "
+        "C12's subject. Sampled portfolios.",
+    },
     "C04": {
         "technique": "invariant at quiescent points: deep state projection compared around every raising call, rejection sites taken from tracebacks",
         "text": "Frozen-market scenes of every market type (uniswap, aave, uniswap+aave, squeeth with its pool, deribit incl. closed bars, "
